@@ -5,7 +5,7 @@ let () =
   (* C12WT: a destination that refuses exactly one write and then works again *)
   register "C12WT" (fun i o -> match i, o with
     | [_comp; _k; _ops], [res; refused; z] ->
-      let all_ok = List.for_all (fun r -> match String.split_on_char ':' r with [_; "true"] -> true | _ -> false) (String.split_on_char ',' res) in
+      let all_ok = List.for_all (fun r -> match String.split_on_char ':' r with [_; "1"] -> true | _ -> false) (String.split_on_char ',' res) in
       if refused = "1" && all_ok then Viol "the destination refused a write, yet every Write / Flush / Close reported success (the message went out with a hole in it)"
       else if z = "0" then Viol "python zlib does not inflate destination++tail to the written message after a Flush/Close that reported success"
       else Pass (refused = "1")
@@ -17,4 +17,13 @@ let () =
     | [_; before; after] ->
       if before <> after then Viol "the answer of Negotiate changed when the memory of the client's offer was reused (it aliases the request)"
       else Pass (before <> "-")
+    | _ -> Diff "malformed line")
+
+let () =
+  (* C19F: the first use of the library in a fresh process, made concurrently by several sessions *)
+  register "C19F" (fun i o -> match i, o with
+    | [_; race], [n; ok] ->
+      if ok <> "1" then Viol "a fresh process whose first sessions start concurrently crashed or hung"
+      else if int_of_string n > 0 then Viol (Printf.sprintf "the race detector reported %s data race(s) between the FIRST sessions of a fresh process (lazily initialised shared state)" n)
+      else Pass (race = "true" || race = "1")
     | _ -> Diff "malformed line")
